@@ -114,6 +114,55 @@ fn conformant(ctx: &Ctx, case: &Case, fmt: Fmt, size: EncSize, input: &[u8], com
     true
 }
 
+/// Model-guided search (beam search on the reference literal-only encoder, which runs the same range-coder
+/// algorithm) for inputs on which a carry is propagated through a run of >= 2, 3, 4, ... pending 0xFF bytes -
+/// the case the statement names and that neither short strings nor random inputs reach.
+/// Deterministic; returns (witness input, run length).
+pub fn carry_witnesses(depth: usize, beam: usize) -> Vec<(Vec<u8>, u64)> {
+    use rayon::prelude::*;
+    #[derive(Clone)]
+    struct St {
+        m: enc::Model,
+        rc: enc::RcEnc,
+        bytes: Vec<u8>,
+    }
+    let mut best: std::collections::BTreeMap<u64, Vec<u8>> = std::collections::BTreeMap::new();
+    let mut frontier = vec![St { m: enc::Model::new(3, 0, 2), rc: enc::RcEnc::new(), bytes: vec![] }];
+    for _ in 0..depth {
+        let mut next: Vec<(u128, St)> = frontier
+            .par_iter()
+            .flat_map_iter(|st| {
+                (0..=255u8).map(move |b| {
+                    let mut n = st.clone();
+                    n.m.enc(&mut n.rc, Sym::L(b));
+                    n.bytes.push(b);
+                    // pending run first, then how close `low` is to carrying
+                    // the interval [low, low+range) still straddles the carry boundary 2^32: the run can keep
+                    // growing and a carry is still possible
+                    let lo32 = n.rc.low & 0xFFFF_FFFF;
+                    let straddles = (lo32 + n.rc.range as u64 > 0x1_0000_0000) as u128;
+                    let score = ((n.rc.cache_size as u128) << 41) | (straddles << 40) | lo32 as u128;
+                    (score, n)
+                })
+            })
+            .collect();
+        for (_, st) in &next {
+            let r = st.rc.max_ff_run_at_carry;
+            if r >= 2 {
+                let e = best.entry(r).or_insert_with(|| st.bytes.clone());
+                if st.bytes.len() < e.len() {
+                    *e = st.bytes.clone();
+                }
+            }
+        }
+        next.sort_by(|a, b| b.0.cmp(&a.0).then_with(|| a.1.bytes.cmp(&b.1.bytes)));
+        next.truncate(beam);
+        // a state that already carried keeps its record but is no longer interesting to extend preferentially:
+        frontier = next.into_iter().map(|(_, s)| s).collect();
+    }
+    best.into_iter().map(|(r, b)| (b, r)).collect()
+}
+
 pub fn run(tier: Tier) -> i32 {
     let ctx = Ctx::new("C04", "exploration", tier);
     ctx.set_rule("E5 inputs x E3 source fragmentation: all strings over {00, FF, 'a'} up to length L, all strings over the full byte alphabet up to length 2 (3 in thorough), run-structured inputs x^i y^j z^k on a grid up to 4096, LZMA2 chunk-boundary lengths {0,1,65535,65536,65537,131071,131072,131073}; x {WriteToHeader(None), WriteToHeader(Some(len)), SkipWritingToHeader} with the matching decode option; x source cut sets (all <= 2 cuts, all 2^(n-1) for n <= 12, bytewise). Each output must decode to the input with lzma-rs, with the strict reference decoder (marker iff size unknown, code == 0 at the end, exact chunk/index/footer arithmetic) and with liblzma. Byte identity with the reference encoder is not required. distinct_nontrivial = inputs on which the reference range encoder propagated a carry through >= 1 pending 0xFF byte, or that span more than one LZMA2 chunk.");
@@ -230,6 +279,32 @@ pub fn run(tier: Tier) -> i32 {
                 }
             });
             ctx.scope_done(name, items.len() as u64, t0, "drives probabilities to both rails; long pending-0xFF runs");
+        }
+    }
+    // ---------------------------------------------------------------- carries through long runs of pending 0xFF bytes
+    {
+        let name = "carry-through-0xFF-run-witnesses";
+        if ctx.may_start(name) {
+            let t0 = Instant::now();
+            let w = carry_witnesses(tier.pick(36, 64), tier.pick(40, 128));
+            let longest = w.iter().map(|x| x.1).max().unwrap_or(0);
+            let mut items: Vec<Vec<u8>> = Vec::new();
+            for (b, _) in &w {
+                items.push(b.clone());
+                for tail in [vec![0u8], vec![0xFF], vec![0x61, 0x62, 0x63]] {
+                    let mut x = b.clone();
+                    x.extend_from_slice(&tail);
+                    items.push(x);
+                }
+            }
+            par_for(items.len() as u64, |ix| {
+                check_input(&items[ix as usize], false, true);
+            });
+            ctx.set_extra("longest_pending_ff_run_with_carry_reached", json!(longest));
+            for (b, r) in w.iter().rev().take(2) {
+                ctx.sample(json!({"scope": name, "input": brief_bytes(b), "carry_propagated_through_pending_0xFF_bytes": r}));
+            }
+            ctx.scope_done(name, items.len() as u64, t0, &format!("model-guided search found inputs with a carry through runs of up to {} pending 0xFF bytes", longest));
         }
     }
     // ---------------------------------------------------------------- pseudo-random content (carry propagation) and chunk-boundary lengths
